@@ -146,6 +146,29 @@ func (n *nativeRunner) schedOverlay() (string, error) {
 			doc.Replace[src] = dst
 		}
 	}
+	// the harness files themselves: their own mutexes and atomics are scheduling points in the engine too
+	for target, src := range doc.Replace {
+		base := filepath.Base(target)
+		if !strings.HasPrefix(base, "zz_verif_") || strings.HasSuffix(base, "_test.go") || !strings.HasSuffix(base, ".go") {
+			continue
+		}
+		b, err := os.ReadFile(src)
+		if err != nil {
+			continue
+		}
+		nb := b
+		nb = bytes.Replace(nb, []byte("\t\"sync/atomic\"\n"), []byte("\tatomic \"github.com/aukilabs/hagall/internal/verifatomic\"\n"), 1)
+		nb = bytes.Replace(nb, []byte("\t\"sync\"\n"), []byte("\tsync \"github.com/aukilabs/hagall/internal/verifsync\"\n"), 1)
+		if bytes.Equal(nb, b) {
+			continue
+		}
+		k++
+		dst := filepath.Join(n.work, fmt.Sprintf("sched_%d_%s", k, base))
+		if err := os.WriteFile(dst, nb, 0o644); err != nil {
+			return "", err
+		}
+		doc.Replace[target] = dst
+	}
 	b, _ := json.Marshal(doc)
 	n.overlaySched = filepath.Join(n.work, "overlay_sched.json")
 	return n.overlaySched, os.WriteFile(n.overlaySched, b, 0o644)
